@@ -239,6 +239,17 @@ class Repo:
                 for sub in ast.walk(node):
                     if isinstance(sub, (ast.Import, ast.ImportFrom)):
                         self._index_import(mod, sub)
+        # imports made inside function bodies (`from bardolph.fakes import
+        # fake_light_api` in light_module.configure): they bind the same
+        # names for the code of that function; a module-level import of the
+        # same name wins
+        top = dict(mod.imports)
+        for node in ast.walk(mod.tree):
+            if isinstance(node, (ast.FunctionDef, ast.AsyncFunctionDef)):
+                for sub in ast.walk(node):
+                    if isinstance(sub, (ast.Import, ast.ImportFrom)):
+                        self._index_import(mod, sub)
+        mod.imports.update(top)
 
     def _index_import(self, mod, node):
         if isinstance(node, ast.Import):
